@@ -199,3 +199,106 @@ def data_shapes_covered(chk, repo, grammar, interp, rule):
                 'trees (%d distinct) is among the shapes the reader '
                 'interpretation analysed' % (ntrees, len(seen)),
            found='; '.join(sorted(missing)[:6]))
+
+
+def override_compat(chk, repo, rule, rels=None, minimum=1):
+    """Sibling agreement on signatures: when a method of class C calls
+    `self.m(a, b, kw=c)`, every class derived from C (C included) must bind
+    `m` to a definition that accepts those positional arguments and keyword
+    names -- otherwise the inherited method raises TypeError on instances of
+    that subclass.  Classes are resolved by name across the package."""
+    classes = {}
+    for rel, c in repo.classes():
+        classes.setdefault(c.name, (rel, c))
+
+    def bases_of(c):
+        out = []
+        for b in c.bases:
+            n = b.attr if isinstance(b, ast.Attribute) else (
+                b.id if isinstance(b, ast.Name) else None)
+            if n in classes:
+                out.append(classes[n][1])
+        return out
+
+    def mro(c, seen=None):
+        seen = seen or []
+        if c in seen:
+            return []
+        out = [c]
+        for b in bases_of(c):
+            for x in mro(b, seen + [c]):
+                if x not in out:
+                    out.append(x)
+        return out
+
+    def binding(c, name):
+        for k in mro(c):
+            found = None
+            for s in k.body:
+                if isinstance(s, ast.FunctionDef) and s.name == name:
+                    found = s
+            if found is not None:
+                return k, found
+        return None, None
+
+    def accepts(f, npos, kwnames, bound=True):
+        a = f.args
+        decos = [src(d) for d in f.decorator_list]
+        names = [x.arg for x in getattr(a, 'posonlyargs', []) + a.args]
+        if bound and 'staticmethod' not in decos and names:
+            names = names[1:]
+        if npos > len(names) and a.vararg is None:
+            return 'takes %d positional argument(s), %d given' % (
+                len(names), npos)
+        kwonly = [x.arg for x in a.kwonlyargs]
+        for k in kwnames:
+            if k not in names and k not in kwonly and a.kwarg is None:
+                return 'has no parameter %r' % k
+            if k in names[:npos]:
+                return 'gets %r twice' % k
+        ndef = len(a.defaults)
+        required = names[:len(names) - ndef] if ndef else list(names)
+        missing = [n for n in required[npos:] if n not in kwnames]
+        if missing:
+            return 'misses required %s' % missing
+        return None
+
+    n = 0
+    for cname, (rel, c) in sorted(classes.items()):
+        if rels is not None and rel not in rels:
+            continue
+        derived = [d for dn, (dr, d) in classes.items() if c in mro(d)]
+        for m in c.body:
+            if not isinstance(m, ast.FunctionDef):
+                continue
+            for call in ast.walk(m):
+                if not (isinstance(call, ast.Call) and isinstance(
+                        call.func, ast.Attribute) and isinstance(
+                        call.func.value, ast.Name)
+                        and call.func.value.id == 'self'):
+                    continue
+                if any(isinstance(x, ast.Starred) for x in call.args) or any(
+                        kw.arg is None for kw in call.keywords):
+                    continue
+                name = call.func.attr
+                npos = len(call.args)
+                kwn = [kw.arg for kw in call.keywords]
+                for d in derived:
+                    owner, f = binding(d, name)
+                    if f is None:
+                        continue
+                    n += 1
+                    why = accepts(f, npos, kwn)
+                    chk.ob(rule, why is None, rel, m,
+                           key='override-accepts:%s.%s->%s.%s(%s)' % (
+                               cname, m.name, d.name, name, ','.join(
+                                   [str(npos)] + kwn)),
+                           qualname='%s.%s' % (cname, m.name),
+                           what='%s.%s calls self.%s(%s) and %s binds %s to '
+                                '%s.%s, which must accept that call' % (
+                                    cname, m.name, name, ', '.join(
+                                        ['_'] * npos + [k + '=' for k in
+                                                        kwn]),
+                                    d.name, name, owner.name, name),
+                           found=why)
+    chk.need(rule, n, minimum, 'self-calls resolved against overrides')
